@@ -138,13 +138,11 @@ TypeOK == phase \in {"request", "built"}
 
 -----------------------------------------------------------------------------
 \* emission: one JSON record per explored Build step (voxel sets as C-order linear indices)
-PartJ(q) == [shape |-> q.shape]
 EmitTR ==
     \/ EmitMode # "tr"
     \/ LET n == BoxOf(case) IN
        IF case.shape = "algebra"
-       THEN PrintT(ToJson([case |-> [shape |-> "algebra", n |-> n, parts |-> [i \in DOMAIN case.parts |-> PartJ(case.parts[i])]],
-                           n |-> n,
+       THEN PrintT(ToJson([case |-> case, n |-> n,
                            masks |-> [i \in DOMAIN out'.masks |-> LinSet(n, out'.masks[i])],
                            union |-> LinSet(n, out'.union), inter |-> LinSet(n, out'.inter),
                            sub |-> LinSet(n, out'.sub), diffdef |-> out'.diffdef, diff |-> LinSet(n, out'.diff)]))
